@@ -240,6 +240,8 @@ func checkC09(c *Ctx) {
 	c.Rule("C09.allconst", "Binary: when both folded operands are constants (and only then, with no further condition) the result is binaryEval(e.Op(), c1, c2, e.Width()); Less: lessEval(c1, c2, e.Width()) selects the folded ExprTrue on true and ExprFalse on false and the result is SetWidth(res, e.Width())")
 	c.Rule("C09.width", "every value constFold returns is the input itself, a node rebuilt at e.Width(), binaryEval(..., e.Width()) or SetWidth(·, e.Width())")
 	c.Rule("C09.ops", "binaryEvalFunc has a case for every declared expr.BinaryOp and never maps an operator to the evaluator named after a different operator; binaryEval/lessEval pass their operands and width on in order")
+	c.Rule("C09.own", "ownership (E5) in packages exprtransform and expreval: the bytes of a constant being folded (Const.Bytes(), the Value wrapping them) are never written, directly or through a helper that writes its argument: folding leaves its input expression intact")
+	ownRule(c, "C09.own", pkgScope(pkgEval, pkgXform))
 	c.Rule("C09.purge", "ConstFold returns PurgeWidthGadgets of the folded tree")
 
 	cf := anchor(c, pkgXform+".constFold")
